@@ -710,26 +710,27 @@ func (c *Ctx) padOfSameLen(lenF, padF *ssa.Function) bool {
 	if lenF == nil || padF == nil || len(lenF.Params) != 1 || len(padF.Params) != 1 {
 		return false
 	}
-	lrv, prv := singleReturn(lenF), singleReturn(padF)
-	lc, ok := lrv.(*ssa.Call)
-	if !ok || prv == nil {
-		return false
-	}
-	h := flow.StaticCallee(lc)
-	if h == nil || h.Signature.Recv() == nil || len(lc.Call.Args) != 1 {
+	prv := singleReturn(padF)
+	if prv == nil {
 		return false
 	}
 	isRecv := func(f *ssa.Function, a ssa.Value) bool {
 		a = flow.Peel(a)
 		return a == ssa.Value(f.Params[0]) || spilledParam(a) == f.Params[0]
 	}
-	if !isRecv(lenF, lc.Call.Args[0]) {
-		return false
+	// the length Padding() works from: Len() itself, or the method Len() delegates to
+	h := lenF
+	hs := map[*ssa.Function]bool{lenF: true}
+	if lc, ok := singleReturn(lenF).(*ssa.Call); ok {
+		if g := flow.StaticCallee(lc); g != nil && g.Signature.Recv() != nil && len(lc.Call.Args) == 1 && isRecv(lenF, lc.Call.Args[0]) {
+			hs[g] = true
+		}
 	}
+	_ = h
 	env := &cong.Env{MaxDepth: 4,
 		IsSym: func(s ssa.Value) bool {
 			call, ok := s.(*ssa.Call)
-			return ok && flow.StaticCallee(call) == h && len(call.Call.Args) == 1 && isRecv(padF, call.Call.Args[0])
+			return ok && hs[flow.StaticCallee(call)] && len(call.Call.Args) == 1 && isRecv(padF, call.Call.Args[0])
 		},
 		Callee: func(call *ssa.Call) *ssa.Function {
 			g := flow.StaticCallee(call)
